@@ -232,9 +232,20 @@ def c17d(ctx):
         st = enclosing(g.stmt[raises[0]], ast.If)
         from ..decide import expr_table
         tab = ctx.rows(expr_table(st.test))
-        a0 = [a for a in tab.atoms if '%s[0]' % sz in a and '0 ==' in a or a.replace(' ', '') in ('0==%s[0]' % sz, '%s[0]==0' % sz)]
-        a1 = [a for a in tab.atoms if a.replace(' ', '') in ('0==%s[1]' % sz, '%s[1]==0' % sz)]
-        a0 = [a for a in tab.atoms if a.replace(' ', '') in ('0==%s[0]' % sz, '%s[0]==0' % sz)]
+        at_node = g.node_of[id(st)]
+        szc = gs.canon.text(ast.Name(id=sz, ctx=ast.Load()), at=at_node)
+
+        def zero_of(a, k):
+            # `<size>[k] == 0` with the size component in closed form (it may have been unpacked into width / height)
+            at = tab.atom_objs[a]
+            if at.op != '==':
+                return False
+            sides = [at.left, at.right]
+            zero = [e for e in sides if const_value(e, 1) == 0]
+            comp = [e for e in sides if e not in zero]
+            return len(zero) == 1 and len(comp) == 1 and gs.canon.text(comp[0], at=at_node) in ('%s[%d]' % (szc, k), '%s[%d]' % (sz, k))
+        a0 = [a for a in tab.atoms if zero_of(a, 0)]
+        a1 = [a for a in tab.atoms if zero_of(a, 1)]
         ok = len(a0) == 1 and len(a1) == 1 and all(v == (asg[a0[0]] or asg[a1[0]]) for asg, v, _ in tab.assignments())
         ok = ok and all(g.dominates(g.node_of[id(st)], n) for n, x in fetch)
     ctx.check(ok, 'WMSSource._get_sub_query:empty-size-raises', 'a sub-query with zero width or height raises BlankImage before the upstream call', gs,
